@@ -23,6 +23,7 @@ def run(ctx):
     R.rule_capture_anchors(ctx)
     R.rule_transparent_groups(ctx)
     R.rule_comment_text(ctx)
+    R.rule_comment_indentation(ctx)
     ctx.assume("of the comment capture the anchor selection among candidate entities (capture-anchors), the grouping of comment tokens and "
                "the text kept per comment (comment-text) are analysed; exclusion ranges and trailing/leading classification are NOT; text "
                "the lexer never hands to the parser is C11")
